@@ -42,7 +42,24 @@ fn strat_forest(t: Tier) -> BoxedStrategy<ForestCase> {
         .boxed()
 }
 
+enum Forest {
+    C(RandomForestClassifier<f64>),
+    R(RandomForestRegressor<f64>),
+}
+
+impl Forest {
+    /// the library's own equality
+    fn lib_eq(&self, other: &Forest) -> bool {
+        match (self, other) {
+            (Forest::C(a), Forest::C(b)) => a == b,
+            (Forest::R(a), Forest::R(b)) => a == b,
+            _ => false,
+        }
+    }
+}
+
 struct Out {
+    model: Forest,
     json: Value,
     pred: Vec<f64>,
     oob: Result<Vec<f64>, String>,
@@ -73,7 +90,7 @@ fn fit_forest(case: &ForestCase) -> Result<Result<Out, String>, String> {
                 p = p.with_m(m);
             }
             let f = RandomForestClassifier::fit(&xm, &case.y, p).map_err(|e| format!("fit: {}", e))?;
-            Ok(Out { json: serde_json::to_value(&f).map_err(|e| e.to_string())?, pred: f.predict(&qm).map_err(|e| format!("predict: {}", e))?, oob: f.predict_oob(&xm).map_err(|e| e.to_string()) })
+            Ok(Out { json: serde_json::to_value(&f).map_err(|e| e.to_string())?, pred: f.predict(&qm).map_err(|e| format!("predict: {}", e))?, oob: f.predict_oob(&xm).map_err(|e| e.to_string()), model: Forest::C(f) })
         } else {
             let mut p = RandomForestRegressorParameters::default().with_n_trees(case.n_trees as usize).with_min_samples_leaf(case.min_samples_leaf).with_min_samples_split(case.min_samples_split).with_keep_samples(case.keep_samples).with_seed(case.seed);
             if let Some(d) = case.max_depth {
@@ -83,7 +100,7 @@ fn fit_forest(case: &ForestCase) -> Result<Result<Out, String>, String> {
                 p = p.with_m(m);
             }
             let f = RandomForestRegressor::fit(&xm, &case.y, p).map_err(|e| format!("fit: {}", e))?;
-            Ok(Out { json: serde_json::to_value(&f).map_err(|e| e.to_string())?, pred: f.predict(&qm).map_err(|e| format!("predict: {}", e))?, oob: f.predict_oob(&xm).map_err(|e| e.to_string()) })
+            Ok(Out { json: serde_json::to_value(&f).map_err(|e| e.to_string())?, pred: f.predict(&qm).map_err(|e| format!("predict: {}", e))?, oob: f.predict_oob(&xm).map_err(|e| e.to_string()), model: Forest::R(f) })
         }
     })
 }
@@ -105,6 +122,7 @@ fn check_forest(case: &ForestCase, ctx: &mut Ctx) -> Result<(), Fail> {
         _ => return fail(format!("{}/refit", tag), "second fit failed".to_string()),
     };
     ensure!(a.json == b.json, format!("{}/not-reproducible", tag), "two fits with seed {} serialise differently", case.seed);
+    ensure!(a.model.lib_eq(&b.model) && b.model.lib_eq(&a.model) && a.model.lib_eq(&a.model), format!("{}/not-equal", tag), "two fits with seed {} (identical serialisations) do not compare equal with the library's ==", case.seed);
     let bits = |v: &Vec<f64>| v.iter().map(|x| x.to_bits()).collect::<Vec<u64>>();
     ensure!(bits(&a.pred) == bits(&b.pred), format!("{}/not-reproducible", tag), "two fits with seed {} predict differently", case.seed);
     match (&a.oob, &b.oob) {
